@@ -54,6 +54,9 @@ Definition strip_reset (l : text) : bool * text :=
   | _ => (false, l)
   end.
 
+(* [fuel] bounds both the number of cells and (inside take_groups) the number of style groups of
+   one cell; any fuel >= length l gives the same result (facts/AnsiFacts.v), and passing it down
+   instead of recomputing [length l] keeps the scanner linear like the regex engine. *)
 Fixpoint expand_fuel (fuel : nat) (l : text) : list cell :=
   match fuel with
   | O => []
@@ -61,7 +64,7 @@ Fixpoint expand_fuel (fuel : nat) (l : text) : list cell :=
       match l with
       | [] => []
       | _ =>
-          let (p, r) := take_groups (length l) l in
+          let (p, r) := take_groups fuel l in
           match r with
           | [] => []          (* unreachable: take_groups leaves at least one rune *)
           | c :: r' => let (rs, r'') := strip_reset r' in mkcell p c rs :: expand_fuel f r''
